@@ -65,24 +65,24 @@ type Options struct {
 }
 
 type ViolationRec struct {
-	Property  string         `json:"property"`
-	Engine    string         `json:"engine"`
-	Tier      string         `json:"tier"`
-	VerifSeed uint64         `json:"verif_seed"`
-	Run       int            `json:"run"`
-	Config    map[string]any `json:"config,omitempty"`
-	Draws     []int          `json:"draws"`
-	Trace     []string       `json:"trace,omitempty"`
-	Schedule  []string       `json:"schedule,omitempty"`
-	Faults    []string       `json:"faults,omitempty"`
-	Violation Failure        `json:"violation"`
-	Signature string         `json:"signature"`
-	Shrunk    bool           `json:"shrunk"`
-	FromSeed  bool           `json:"from_seed,omitempty"`
-	RunFrom   *int           `json:"run_from,omitempty"`  // range replay: runs run_from..run of the seed in one process (state carried between runs)
-	WorkerFrom int           `json:"worker_from"`
-	Env       map[string]string `json:"env,omitempty"` // environment swarm of the worker that found it (part of the configuration)
-	ShrinkLog string         `json:"shrink_log,omitempty"`
+	Property   string            `json:"property"`
+	Engine     string            `json:"engine"`
+	Tier       string            `json:"tier"`
+	VerifSeed  uint64            `json:"verif_seed"`
+	Run        int               `json:"run"`
+	Config     map[string]any    `json:"config,omitempty"`
+	Draws      []int             `json:"draws"`
+	Trace      []string          `json:"trace,omitempty"`
+	Schedule   []string          `json:"schedule,omitempty"`
+	Faults     []string          `json:"faults,omitempty"`
+	Violation  Failure           `json:"violation"`
+	Signature  string            `json:"signature"`
+	Shrunk     bool              `json:"shrunk"`
+	FromSeed   bool              `json:"from_seed,omitempty"`
+	RunFrom    *int              `json:"run_from,omitempty"` // range replay: runs run_from..run of the seed in one process (state carried between runs)
+	WorkerFrom int               `json:"worker_from"`
+	Env        map[string]string `json:"env,omitempty"` // environment swarm of the worker that found it (part of the configuration)
+	ShrinkLog  string            `json:"shrink_log,omitempty"`
 }
 
 type Sample struct {
@@ -94,25 +94,25 @@ type Sample struct {
 }
 
 type WorkerOut struct {
-	Property   string            `json:"property"`
-	Engine     string            `json:"engine"`
-	From       int               `json:"from"`
-	To         int               `json:"to"`
-	Runs       int               `json:"runs"`
-	Evals      int               `json:"evals"`
-	Steps      int               `json:"steps"`
-	Fingers    []uint64          `json:"fingers"`
-	Counters   map[string]int    `json:"counters"`
-	Violations []ViolationRec    `json:"violations"`
-	Others     map[string]int    `json:"others"`
-	OtherMsgs  map[string]string `json:"other_msgs"`
-	Samples    []Sample          `json:"samples"`
-	Uncovered  []string          `json:"uncovered"`
-	Trouble    []string          `json:"trouble"`
-	WallS      float64           `json:"wall_s"`
-	RaceBuild  bool              `json:"race_build"`
-	DrawDigest uint64            `json:"draw_digest"` // hash of every decision of every run, in order
-	TraceDigest uint64           `json:"trace_digest"`
+	Property    string            `json:"property"`
+	Engine      string            `json:"engine"`
+	From        int               `json:"from"`
+	To          int               `json:"to"`
+	Runs        int               `json:"runs"`
+	Evals       int               `json:"evals"`
+	Steps       int               `json:"steps"`
+	Fingers     []uint64          `json:"fingers"`
+	Counters    map[string]int    `json:"counters"`
+	Violations  []ViolationRec    `json:"violations"`
+	Others      map[string]int    `json:"others"`
+	OtherMsgs   map[string]string `json:"other_msgs"`
+	Samples     []Sample          `json:"samples"`
+	Uncovered   []string          `json:"uncovered"`
+	Trouble     []string          `json:"trouble"`
+	WallS       float64           `json:"wall_s"`
+	RaceBuild   bool              `json:"race_build"`
+	DrawDigest  uint64            `json:"draw_digest"` // hash of every decision of every run, in order
+	TraceDigest uint64            `json:"trace_digest"`
 }
 
 var engines = map[string]func(*simrt.Chooser, Options) RunResult{}
